@@ -186,6 +186,17 @@ theorem cmpLoop_spec : ∀ (fuel : Nat) (s1 s2 : List Str) (n1 n2 : List Nat),
             cases s1 <;> cases s2 <;> cases n1 <;> cases n2 <;> simp_all <;> omega
           omega
 
+/-- When all positions agree the loop finds no exit, however long it runs. -/
+theorem cmpLoop_none_of_eq : ∀ (fuel : Nat) (s1 s2 : List Str) (n1 n2 : List Nat),
+    loopOrd s1 s2 n1 n2 = .eq → cmpLoop fuel s1 s2 n1 n2 = none
+  | 0, _, _, _, _, _ => rfl
+  | fuel + 1, s1, s2, n1, n2, h => by
+    rw [loopOrd_unfold] at h
+    obtain ⟨h12, h3⟩ := then_eq_eq.1 h
+    obtain ⟨h1, h2⟩ := then_eq_eq.1 h12
+    simp only [cmpLoop, compareString_eq_strOrd, h1, h2]
+    exact cmpLoop_none_of_eq fuel _ _ _ _ h3
+
 /-! ### the order on upstream versions / revisions -/
 
 def partKey (s : Str) : List (Str × Nat) := zipPad (strings s) (numbers s)
@@ -204,6 +215,16 @@ theorem comparePart_spec (a b : Str) :
   · simp only []
     rw [cmpLoop_spec _ _ _ _ _ (by omega)]
     rfl
+
+/-- `comparePart a b = none` really means that no number of iterations ends the loop. -/
+theorem comparePart_none_forever {a b : Str} (h : comparePart a b = none) (fuel : Nat) :
+    cmpLoop fuel (strings a) (strings b) (numbers a) (numbers b) = none := by
+  rw [comparePart_spec] at h
+  split at h
+  · simp at h
+  · split at h
+    · next he => exact cmpLoop_none_of_eq fuel _ _ _ _ he
+    · simp at h
 
 theorem comparePart_some {a b : Str} {o : Ordering} (h : comparePart a b = some o) : o = partOrd a b := by
   rw [comparePart_spec] at h
